@@ -547,6 +547,12 @@ func genC13(g *G) {
 		}
 		g.L("boundary-sdp").run(sessOp("rtpin.sess", sdp, "2/3", "0/1", its))
 		g.L("boundary-sdp").run(sessOp("fz.sess", sdp, "2/3", "0/1", its))
+		// receiver reports: a sender report, then only duplicates / older packets, then another sender report (nothing
+		// expected in the interval), and a sender report before any RTP at all
+		dup := []string{its[0], its[2], its[0], its[0], its[2], item(0, c13Rtp(vp, 0, 86400, 0xa, 1, 0, -1, -1, []byte{0x61, 1})), its[2], its[5], its[2]}
+		g.L("boundary-rr").run(sessOp("rtpin.sess", sdp, "2/3", "0/1", dup))
+		g.L("boundary-rr").run(sessOp("fz.sess", sdp, "2/3", "0/1", dup))
+		g.L("boundary-rr").run(sessOp("rtpin.sess", sdp, "2/3", "0/1", []string{its[2], its[2], its[3], its[0], its[2]}))
 		g.L("boundary-sdp").run(sessOp("rtpin.sess", sdp, "-", "-", its))     // no SETUP: every channel is 0
 		g.L("boundary-sdp").run(sessOp("rtpin.sess", sdp, "0/0", "0/0", its)) // all four the same channel
 		if si == 4 {                                                          // video only: payload type 0 (the zero value of the absent audio track, = G711U) must not reach an audio unpacker
@@ -643,6 +649,24 @@ func genC13(g *G) {
 		{0, 0, 1, 0xb9}, {0, 0, 1, 0xb9, 0, 0, 1, 0xb9}, {0, 0, 2, 0xe0, 1, 2}, {0xff, 0xff, 0xff, 0xff, 0xff}} {
 		g.L("boundary").run(c13BodyOp([][]byte{b}))
 		g.L("boundary").run(c13BodyOp([][]byte{c13Psm(0x1b, 0x0f), b}))
+	}
+	// every PTS_DTS_flags value (the forbidden 01 too) x every PES_header_data_length 0..11 x 0..6 bytes following the
+	// PES header, for a video and an audio stream id, as the last thing of the body
+	for _, sid := range []byte{0xe0, 0xc0} {
+		for flags := 0; flags < 4; flags++ {
+			for hl := 0; hl <= 11; hl++ {
+				for rest := 0; rest <= 6; rest++ {
+					if rest != hl && rest > 0 && rest < hl-1 && !g.thorough() {
+						continue
+					}
+					body := []byte{0x80, byte(flags << 6), byte(hl)}
+					for i := 0; i < rest; i++ {
+						body = append(body, byte(0x21+i))
+					}
+					g.L("boundary-pes-header").run(c13BodyOp([][]byte{c13Psm(0x1b, 0x0f), c13Lenned(sid, body)}))
+				}
+			}
+		}
 	}
 	// start codes inside the video buffer: 3, 4, 5 zero bytes, NAL of 0, 1, 2 bytes behind the start code
 	for _, es := range [][]byte{{0, 0, 1}, {0, 0, 1, 0x67}, {0, 0, 0, 1}, {0, 0, 0, 1, 0x67}, {0, 0, 0, 0, 1, 0x67}, {0, 0, 0, 0, 1}, {0, 0, 1, 0x67, 0, 0, 1}, {0, 0, 1, 0, 0, 1, 0x68},
